@@ -155,7 +155,7 @@ func RunShards(p *Prop, pc *ParentCtx, extraEnv []string) *Aggregate {
 		// wait for the ordinary shards first
 		wg.Wait()
 
-		nCold := 120
+		nCold := 200
 		if pc.Tier == "thorough" {
 			nCold = 1200
 		}
